@@ -25,10 +25,12 @@ BOUND = ("piecewise-linear TrapezoidalGrid with boundary points, Integration ope
          "on/off (automatic_extend_split only with lmax>lmin at the start: its benefit estimate evaluates a parent one level below lmax, "
          "which does not exist for lmax==lmin), three domains, scalar or 2-vector generic integrand, <=6 refine steps driven by a seeded adversarial ErrorCalculator "
          "(arbitrary positive errors); seeded sample of that product (about 60 histories quick, several hundred thorough); 40-70 "
-         "evaluation points per step (random interior points plus corners/face midpoints of leaves)")
+         "evaluation points per step (random interior points plus corners/face midpoints of leaves); every fourth history is followed by a "
+         "second performSpatiallyAdaptiv on the same object (2 more steps), every fourth by a second scheme with other options on the same "
+         "grid/operation/Function objects (3 steps)")
 RULE = BOUND + ("; a case is one (version,d,lmin,lmax,coarsening) tuple or one history configuration with its seed; a local case is "
                 "non-trivial when at least one component grid is computed, a history when at least one refinement step changed the leaves")
-BUDGET = {"quick": 55.0, "thorough": 840.0}
+BUDGET = {"quick": 70.0, "thorough": 840.0}
 
 CLAUSES = {
     "B.local.coeff_sum": "for the component grids that coarsen_grid reports as computed for an area (collision filter included), the "
@@ -47,6 +49,14 @@ CLAUSES = {
     "B.hist.current_sum": "for every leaf the grids that coarsen_grid selects under the current scheme and coarsening value (what __call__ "
                           "combines) have coefficient sums 1 at every grid point; for version 0 (documented as adding points only where "
                           "refined) they are the same coarsened grids with the same net coefficients as the ones evaluated for that leaf",
+    "B.hist.idempotent": "asking again changes nothing: __call__ on the same points and get_points_assignement_to_areas return the same values / "
+                         "the same leaves a second time, and the coarsen_grid selection of a leaf is the same when asked twice",
+    "B.hist.fresh_state": "no contamination between runs and objects: performSpatiallyAdaptiv called again on the same scheme object (other start "
+                          "levels), and a second, differently configured scheme built on the SAME grid / operation / Function objects, start "
+                          "from the fresh initial state (2^d leaves, coarsening 0, given lmax) and satisfy every history clause in their own "
+                          "steps (reported with witness classes ending in /second-run and /shared-operation)",
+    "B.local.two_areas": "two area objects with different coarsening values served alternately by one scheme object keep their own "
+                         "selections (each valid, the first unchanged when asked again after the second)",
     "B.hist.interpolation": "the combined interpolant __call__(p) equals f(p) (1e-9 abs+rel) at every grid point p of the leaf that p is assigned to",
 }
 
@@ -183,6 +193,21 @@ def local_case(ctx, case):
              if sa.coarsen_grid(cg.levelvector, area)[1]]
     ctx.check("B.local.coeff_sum", sorted(again) == sorted(computed), SITE_COARSEN, wclass + "-second-pass",
               "second pass over the scheme selects different grids: %s vs %s" % (sorted(again)[:4], sorted(computed)[:4]))
+    # a second area with another coarsening value on the same scheme object, served in between
+    c2 = c - 1 if c > 0 else min(1, lmax - lmin)
+    if c2 != c and 0 <= c2 <= lmax - lmin and c <= lmax - lmin:
+        area2 = RefinementObjectExtendSplit(end * 0.5, end, grid, coarseningValue=c2)
+        sel2 = sel1 = None
+        with ctx.guard("B.local.two_areas", SITE_COARSEN, wclass + "-raises"):
+            sel2 = [(tuple(int(x) for x in sa.coarsen_grid(cg.levelvector, area2)[0]), cg.coefficient) for cg in sa.scheme
+                    if sa.coarsen_grid(cg.levelvector, area2)[1]]
+            sel1 = [(tuple(int(x) for x in sa.coarsen_grid(cg.levelvector, area)[0]), cg.coefficient) for cg in sa.scheme
+                    if sa.coarsen_grid(cg.levelvector, area)[1]]
+        if sel2 is not None and sel1 is not None:
+            bad2 = dominating_defects(sel2, d)
+            ctx.check("B.local.two_areas", not bad2 and len(sel2) > 0 and sorted(sel1) == sorted(computed), SITE_COARSEN, wclass + "/two-areas",
+                      "second area (coarsening %d): %d grids, defects %s; first area (coarsening %d) afterwards selects %s, before %s"
+                      % (c2, len(sel2), bad2[:2], c, sorted(sel1)[:4], sorted(computed)[:4]))
     return len(computed) > 0
 
 
@@ -281,10 +306,11 @@ def check_assignment(ctx, sa, leaves, pts, d, wclass):
     return owner
 
 
-def check_step(ctx, sa, rec, f, a, b, d, r, wclass, lmin0):
+def check_step(ctx, sa, rec, f, a, b, d, r, wclass, lmin0, tag=""):
+    wclass = wclass + tag
     leaves = check_tiling(ctx, sa, a, b, d, wclass)
     lmin = sa.lmin[0]
-    site_w = vclass(sa.version, lmin)
+    site_w = vclass(sa.version, lmin) + tag
     # grids actually evaluated for every leaf in the last evaluate_operation passes (recorded at Integration.evaluate_area)
     bad_msg = None
     for ar in leaves:
@@ -306,8 +332,13 @@ def check_step(ctx, sa, rec, f, a, b, d, r, wclass, lmin0):
                 lv, do_compute = sa.coarsen_grid(cg.levelvector, ar)
                 if do_compute:
                     sel.append((tuple(int(x) for x in lv), cg.coefficient))
+            again = [(tuple(int(x) for x in sa.coarsen_grid(cg.levelvector, ar)[0]), cg.coefficient) for cg in sa.scheme
+                     if sa.coarsen_grid(cg.levelvector, ar)[1]]
             ar.levelvec_dict = saved
             selection[id(ar)] = sel
+            if sorted(again) != sorted(sel):
+                ctx.check("B.hist.idempotent", False, SITE_COARSEN, site_w + "/selection-twice",
+                          "leaf %s-%s: second pass over the scheme selects %s, first pass %s" % (list(ar.start), list(ar.end), sorted(again)[:4], sorted(sel)[:4]))
             bad = dominating_defects(sel, d)
             if msg is None and (bad or not sel):
                 msg = "leaf %s-%s coarsening %s lmax %s: %d grids selected, coefficient sum at level %s is %s" % (
@@ -331,12 +362,23 @@ def check_step(ctx, sa, rec, f, a, b, d, r, wclass, lmin0):
         pts.update(own)
     pts = sorted(pts)
     owner = check_assignment(ctx, sa, leaves, pts, d, wclass)
-    vals = None
+    vals = vals2 = owner2 = None
     with ctx.guard("B.hist.interpolation", SITE_CALL, site_w + "-raises"):
         with quiet():
             vals = sa(list(pts))
     if vals is None:
         return
+    with ctx.guard("B.hist.idempotent", SITE_CALL, site_w + "/second-call-raises"):
+        with quiet():
+            sub = list(pts)[::3]  # the same points again, in a smaller batch
+            vals2 = sa(list(sub))
+            owner2 = {tuple(p): ar for ar, ps in sa.get_points_assignement_to_areas(list(sub)) for p in ps}
+    if vals2 is not None:
+        import numpy as np
+        same_vals = np.array_equal(np.asarray(vals, dtype=float)[::3], np.asarray(vals2, dtype=float))
+        same_owner = all(owner2.get(p) is owner.get(p) for p in sub)
+        ctx.check("B.hist.idempotent", same_vals and same_owner, SITE_CALL, site_w + "/second-call",
+                  "second __call__/assignment on %d of the same points differs (values equal: %s, leaves equal: %s)" % (len(sub), same_vals, same_owner))
     worst, wp, n = 0.0, None, 0
     for i, p in enumerate(pts):
         ar = owner.get(p)
@@ -380,31 +422,61 @@ def history_case(ctx, case):
     grid = TrapezoidalGrid(a, b, boundary=True)
     op = RecordingIntegration(f, grid=grid, dim=d)
     wclass = "auto%d-ssd%d" % (int(case["auto"]), int(case["ssd"]))
-    sa = None
-    with ctx.guard("B.hist.runs", "sparseSpACE.spatiallyAdaptiveBase:SpatiallyAdaptivBase.performSpatiallyAdaptiv", wclass + "-init-raises"):
-        with quiet():
-            sa = SpatiallyAdaptiveExtendScheme(a, b, number_of_refinements_before_extend=case["nrbe"], version=version,
-                                               automatic_extend_split=case["auto"], split_single_dim=case["ssd"], operation=op)
-            # max_evaluations=1: initial evaluation only, then the loop of continue_adaptive_refinement is stepped by hand
-            sa.performSpatiallyAdaptiv(lmin=lmin, lmax=lmax, errorOperator=AdversarialError(), tol=-1, max_evaluations=1, print_output=False)
-    if sa is None or not hasattr(sa, "refinement"):
-        return False
-    check_step(ctx, sa, rec, f, a, b, d, r, wclass, lmin)
-    changed = False
-    for step in range(case["steps"]):
-        before = set(map(id, sa.refinement.get_objects()))
-        okstep = False
-        with ctx.guard("B.hist.runs", SITE_STEP, (vclass(version, lmin) if "gt1" in vclass(version, lmin) else wclass) + "-step-raises"):
+
+    def drive(sa_obj, cfg, lmin_, lmax_, steps, tag):
+        """(re)start sa_obj with performSpatiallyAdaptiv and step it; returns (scheme or None, leaves changed)"""
+        wcl = "auto%d-ssd%d" % (int(cfg["auto"]), int(cfg["ssd"]))
+        rec.clear()
+        ok = False
+        with ctx.guard("B.hist.runs", "sparseSpACE.spatiallyAdaptiveBase:SpatiallyAdaptivBase.performSpatiallyAdaptiv", wcl + tag + "-init-raises"):
             with quiet():
-                sa.refine()
-                sa.evaluate_operation()
-            okstep = True
-        if not okstep:
-            break
-        changed |= before != set(map(id, sa.refinement.get_objects()))
-        check_step(ctx, sa, rec, f, a, b, d, r, wclass, lmin)
-        if ctx.out_of_time(0.97):
-            break
+                if sa_obj is None:
+                    sa_obj = SpatiallyAdaptiveExtendScheme(a, b, number_of_refinements_before_extend=cfg["nrbe"], version=cfg["version"],
+                                                           automatic_extend_split=cfg["auto"], split_single_dim=cfg["ssd"], operation=op)
+                # max_evaluations=1: initial evaluation only, then the loop of continue_adaptive_refinement is stepped by hand
+                sa_obj.performSpatiallyAdaptiv(lmin=lmin_, lmax=lmax_, errorOperator=AdversarialError(), tol=-1, max_evaluations=1, print_output=False)
+            ok = True
+        if not ok or sa_obj is None or not hasattr(sa_obj, "refinement"):
+            return None, False
+        if tag:  # the fresh initial state
+            leaves = sa_obj.refinement.get_objects()
+            fresh = (len(leaves) == 2 ** d and all(ar.coarseningValue == 0 for ar in leaves) and list(sa_obj.lmax) == [lmax_] * d
+                     and list(sa_obj.lmin) == [lmin_] * d and all(len(rec.get(id(ar), [])) > 0 for ar in leaves))
+            ctx.check("B.hist.fresh_state", fresh, "sparseSpACE.spatiallyAdaptiveBase:SpatiallyAdaptivBase.init_adaptive_combi", wcl + tag,
+                      "%d leaves, coarsening %s, lmax %s (expected %d leaves, 0, %s)" % (len(leaves), sorted(set(ar.coarseningValue for ar in leaves)),
+                                                                                        list(sa_obj.lmax), 2 ** d, lmax_))
+        check_step(ctx, sa_obj, rec, f, a, b, d, r, wcl, lmin_, tag)
+        changed = False
+        v = vclass(cfg["version"], lmin_)
+        for step in range(steps):
+            before = set(map(id, sa_obj.refinement.get_objects()))
+            okstep = False
+            with ctx.guard("B.hist.runs", SITE_STEP, (v if "gt1" in v else wcl) + tag + "-step-raises"):
+                with quiet():
+                    sa_obj.refine()
+                    sa_obj.evaluate_operation()
+                okstep = True
+            if not okstep:
+                break
+            changed |= before != set(map(id, sa_obj.refinement.get_objects()))
+            check_step(ctx, sa_obj, rec, f, a, b, d, r, wcl, lmin_, tag)
+            if ctx.out_of_time(0.97):
+                break
+        return sa_obj, changed
+
+    sa, changed = drive(None, case, lmin, lmax, case["steps"], "")
+    if sa is None:
+        return False
+    follow = case.get("follow")
+    if follow == "second-run":
+        # same object, started again with other start levels (auto needs lmax > lmin)
+        lmax2 = lmax + 1 if lmax < 3 else lmax - 1
+        if case["auto"] and lmax2 <= lmin:
+            lmax2 = lmin + 1
+        drive(sa, case, lmin, lmax2, 2, "/second-run")
+    elif follow == "shared-operation":
+        cfg = dict(case, version=(version + 1) % 3, ssd=not case["ssd"], nrbe=(case["nrbe"] + 1) % 3)
+        drive(None, cfg, lmin, lmax, 3, "/shared-operation")
     return changed
 
 
@@ -441,7 +513,8 @@ def run_histories(ctx):
                 return
             case = {"kind": "history", "d": d, "lmin": lmin, "lmax": lmax, "version": version, "nrbe": nrbe, "auto": auto, "ssd": ssd,
                     "domain": ctx.rng.choice(sorted(DOMAINS)), "outlen": ctx.rng.choice((1, 1, 2)),
-                    "steps": 6 if d == 2 else (3 if ctx.quick() else 5), "seed": ctx.rng.randrange(10 ** 6)}
+                    "steps": 6 if d == 2 else (3 if ctx.quick() else 5), "seed": ctx.rng.randrange(10 ** 6),
+                    "follow": (None, "second-run", None, "shared-operation")[done % 4]}
             ctx.case(case)
             history_case(ctx, case)
             done += 1
